@@ -142,6 +142,10 @@ def run_c04(ck, fb, fbd):
         (ck.ok if not bad else lambda r, w, t: ck.violate(r, w, t, "C04.status"))("C04.status", f.where, "StatusAttrib::garbage_collection: %s" % ("all clauses hold" if not bad else "; ".join(bad)))
     for f in sg[:1]:
         status_remap(ck, f)
+    # garbage collection = swap with the last entity + erase, per kind: relabelling and renumbering rules (shared with C17 / C02)
+    from .lockstep import relabel_rules, corrections
+    relabel_rules(c)
+    corrections(c, cores)
     # second pass safety and incidence recomputation (shared with C01)
     elem = elem_effects(c)
     owner_rule(c, cores, elem)
@@ -215,69 +219,10 @@ def status_remap(ck, f):
 
 
 # ------------------------------------------------------------------------------------------------ C09
-def run_c09(ck, fb, fbd):
-    c = Ctx(ck, fb)
-    cores = delete_cores(c)
-    # an index swap relabels the per-halfedge lists in place: relabelling a shared list twice leaves the old order (shared with C17)
-    from .lockstep import relabel_rules
-    relabel_rules(c)
-    cm = c.cm
-    ck.rule("C09.trigger", "reorder_incident_halffaces(e) is called for the affected edges in add_cell, delete_face_core (after the unlink), delete_cell_core (after the incident-cell reset) and in enable_edge/face_bottom_up_incidences - in every deletion mode (no deferred/fast condition), exactly when both the edge and the face kind are available")
-    ck.rule("C09.walk", "inside reorder_incident_halffaces the forward walk appends and steps with adjacent_halfface_in_cell + opposite_halfface_handle along the halfedge, the backward walk uses the opposite halfedge and prepends (front insertion / reverse range), both walks abort when they outgrow the stored list, and the ordered list is written back together with its mirrored reverse for the opposite halfedge")
-    ck.rule("C09.adjacent", "adjacent_halfface_in_cell accepts another halfface of the cell only if it contains the opposite of the given halfedge, is not the given halfface and is not its opposite halfface (cells containing both sides of a face)")
-    ro = [f for f in c.fns if f.name == "reorder_incident_halffaces"]
-    if not ro:
-        raise AnalysisBroken("anchor vanished: TopologyKernel::reorder_incident_halffaces")
-    ro = ro[0]
-    he, hf = c.has_name(km_cache(c, "Edge")), c.has_name(km_cache(c, "Face"))
-    flags = {cm.kinds[km_cache(c, "Edge")]["flag"], cm.kinds[km_cache(c, "Face")]["flag"]}
-    elem = elem_effects(c)
-    want = {"add_cell": None, cores["Face"].name: km_cache(c, "Edge"), cores["Cell"].name: km_cache(c, "Face")}
-    callers = {}
-    for g, b, i, n in fb.callers(ro.id):
-        if g.has_cfg and b in g.reach() and "/src/OpenVolumeMesh/" in g.file:
-            callers.setdefault(g.name, []).append((g, b, i, n))
-    for name in list(want) + [k["enable_name"] for cch, k in cm.kinds.items() if cch in (km_cache(c, "Edge"), km_cache(c, "Face"))]:
-        sites = callers.get(name, [])
-        if not sites:
-            ck.violate("C09.trigger", "TopologyKernel::" + name, "%s no longer calls reorder_incident_halffaces" % name, "C09.trigger:%s:missing" % name)
-            continue
-        for g, b, i, n in sites:
-            at = atoms_at(g, b)
-            mode = [a for a in at if a[0] in MODE_ATOMS]
-            if name.startswith("enable_"):
-                # both kinds available: the other kind's flag true, own kind established by compute (G rule) - here: the other flag is tested
-                other_ok = any(a[0] in flags and a[1] is True for a in at)
-                ok = other_ok and not mode
-            else:
-                ok = (he, True) in at and (hf, True) in at and not mode
-                # any further condition skips the re-ordering for some edges: only lists with fewer than two
-                # halffaces are trivially ordered (and mirrored), so the only admissible extra atom is such a size test
-                for cnd, pol in at:
-                    if (cnd, pol) in ((he, True), (hf, True)) or cnd in MODE_ATOMS:
-                        continue
-                    m = re.match(r"^\((.*)\.size\(\) (>|>=|!=|<|<=|==) (\d+)\)$", cnd)
-                    thr = None
-                    if m and pol is True and m.group(2) in (">", ">=", "!="):
-                        thr = int(m.group(3)) + (1 if m.group(2) == ">" else 0)  # smallest size that still reorders
-                        if m.group(2) == "!=":
-                            thr = 1 if m.group(3) == "0" else 99
-                    elif m and pol is False and m.group(2) in ("<", "<=", "=="):
-                        thr = int(m.group(3)) + (1 if m.group(2) == "<=" else 0)
-                        if m.group(2) == "==":
-                            thr = 1 if m.group(3) == "0" else 99
-                    elif re.match(r"^.*\.empty\(\)$", cnd) and pol is False:
-                        thr = 1
-                    if thr is None:
-                        raise AnalysisBroken("%s: %s re-orders under the additional condition %s%s which rule C09.trigger cannot judge - re-audit" % (g.loc(n), name, "" if pol else "!", cnd))
-                    if thr > 2:
-                        ok = False
-            (ck.ok if ok else lambda r, w, t: ck.violate(r, w, t, "C09.trigger:%s" % name))("C09.trigger", g.loc(n), "%s reorders under %s (both kinds, no deletion-mode condition)" % (name, fmt_atoms(at)))
-            cache = want.get(name)
-            if cache:
-                un = [e for e in elem.get(g.id, []) if e["cache"] == cache and e["what"] in ("unlink", "assign")]
-                ok = bool(un) and all(not g.dominates((b, i), e["pos"]) and (e["pos"][0] != b or e["pos"][1] < i) for e in un)
-                (ck.ok if ok else lambda r, w, t: ck.violate(r, w, t, "C09.trigger:%s:after" % name))("C09.trigger", g.loc(n), "%s reorders only after the victim has been removed from %s" % (name, cache))
+def walk_rules(ck, fb, ro):
+    """shape of the two walks of reorder_incident_halffaces (shared with C01: the function rewrites a cache list in place)"""
+    if "C09.walk" not in ck.rules:
+        ck.rule("C09.walk", "inside reorder_incident_halffaces the forward walk appends and steps with adjacent_halfface_in_cell + opposite_halfface_handle along the halfedge, the backward walk uses the opposite halfedge and prepends, both walks abort when they outgrow the stored list, and the stored list is replaced - together with its mirrored reverse for the opposite halfedge - only when every halfface was visited")
     # walk
     # roles instead of names: the rule is written against the aliases below, which are bound to the function's locals by role
     from .canon import Canon
@@ -352,6 +297,71 @@ def run_c09(ck, fb, fbd):
     wb = [(b, x) for b, i, x in ro.tops() if as_assign(x) and R(as_assign(x)[0]) == "incident_hfs"]
     ok = bool(wb) and all(any("new_halffaces.size()" in R(cn) and "incident_hfs.size()" in R(cn) and "==" in R(cn) and pol is True for cn, pol, e in ro.facts(b)) for b, x in wb)
     (ck.ok if ok else lambda r, w, t: ck.violate(r, w, t, "C09.walk:complete"))("C09.walk", ro.where, "the stored list is replaced only when every halfface was visited (sizes equal)")
+
+def run_c09(ck, fb, fbd):
+    c = Ctx(ck, fb)
+    cores = delete_cores(c)
+    # an index swap relabels the per-halfedge lists in place: relabelling a shared list twice leaves the old order (shared with C17)
+    from .lockstep import relabel_rules
+    relabel_rules(c)
+    cm = c.cm
+    ck.rule("C09.trigger", "reorder_incident_halffaces(e) is called for the affected edges in add_cell, delete_face_core (after the unlink), delete_cell_core (after the incident-cell reset) and in enable_edge/face_bottom_up_incidences - in every deletion mode (no deferred/fast condition), exactly when both the edge and the face kind are available")
+    ck.rule("C09.walk", "inside reorder_incident_halffaces the forward walk appends and steps with adjacent_halfface_in_cell + opposite_halfface_handle along the halfedge, the backward walk uses the opposite halfedge and prepends (front insertion / reverse range), both walks abort when they outgrow the stored list, and the ordered list is written back together with its mirrored reverse for the opposite halfedge")
+    ck.rule("C09.adjacent", "adjacent_halfface_in_cell accepts another halfface of the cell only if it contains the opposite of the given halfedge, is not the given halfface and is not its opposite halfface (cells containing both sides of a face)")
+    ro = [f for f in c.fns if f.name == "reorder_incident_halffaces"]
+    if not ro:
+        raise AnalysisBroken("anchor vanished: TopologyKernel::reorder_incident_halffaces")
+    ro = ro[0]
+    he, hf = c.has_name(km_cache(c, "Edge")), c.has_name(km_cache(c, "Face"))
+    flags = {cm.kinds[km_cache(c, "Edge")]["flag"], cm.kinds[km_cache(c, "Face")]["flag"]}
+    elem = elem_effects(c)
+    want = {"add_cell": None, cores["Face"].name: km_cache(c, "Edge"), cores["Cell"].name: km_cache(c, "Face")}
+    callers = {}
+    for g, b, i, n in fb.callers(ro.id):
+        if g.has_cfg and b in g.reach() and "/src/OpenVolumeMesh/" in g.file:
+            callers.setdefault(g.name, []).append((g, b, i, n))
+    for name in list(want) + [k["enable_name"] for cch, k in cm.kinds.items() if cch in (km_cache(c, "Edge"), km_cache(c, "Face"))]:
+        sites = callers.get(name, [])
+        if not sites:
+            ck.violate("C09.trigger", "TopologyKernel::" + name, "%s no longer calls reorder_incident_halffaces" % name, "C09.trigger:%s:missing" % name)
+            continue
+        for g, b, i, n in sites:
+            at = atoms_at(g, b)
+            mode = [a for a in at if a[0] in MODE_ATOMS]
+            if name.startswith("enable_"):
+                # both kinds available: the other kind's flag true, own kind established by compute (G rule) - here: the other flag is tested
+                other_ok = any(a[0] in flags and a[1] is True for a in at)
+                ok = other_ok and not mode
+            else:
+                ok = (he, True) in at and (hf, True) in at and not mode
+                # any further condition skips the re-ordering for some edges: only lists with fewer than two
+                # halffaces are trivially ordered (and mirrored), so the only admissible extra atom is such a size test
+                for cnd, pol in at:
+                    if (cnd, pol) in ((he, True), (hf, True)) or cnd in MODE_ATOMS:
+                        continue
+                    m = re.match(r"^\((.*)\.size\(\) (>|>=|!=|<|<=|==) (\d+)\)$", cnd)
+                    thr = None
+                    if m and pol is True and m.group(2) in (">", ">=", "!="):
+                        thr = int(m.group(3)) + (1 if m.group(2) == ">" else 0)  # smallest size that still reorders
+                        if m.group(2) == "!=":
+                            thr = 1 if m.group(3) == "0" else 99
+                    elif m and pol is False and m.group(2) in ("<", "<=", "=="):
+                        thr = int(m.group(3)) + (1 if m.group(2) == "<=" else 0)
+                        if m.group(2) == "==":
+                            thr = 1 if m.group(3) == "0" else 99
+                    elif re.match(r"^(.*\.)?empty\(\)$", cnd) and pol is False:
+                        thr = 1
+                    if thr is None:
+                        raise AnalysisBroken("%s: %s re-orders under the additional condition %s%s which rule C09.trigger cannot judge - re-audit" % (g.loc(n), name, "" if pol else "!", cnd))
+                    if thr > 2:
+                        ok = False
+            (ck.ok if ok else lambda r, w, t: ck.violate(r, w, t, "C09.trigger:%s" % name))("C09.trigger", g.loc(n), "%s reorders under %s (both kinds, no deletion-mode condition)" % (name, fmt_atoms(at)))
+            cache = want.get(name)
+            if cache:
+                un = [e for e in elem.get(g.id, []) if e["cache"] == cache and e["what"] in ("unlink", "assign")]
+                ok = bool(un) and all(not g.dominates((b, i), e["pos"]) and (e["pos"][0] != b or e["pos"][1] < i) for e in un)
+                (ck.ok if ok else lambda r, w, t: ck.violate(r, w, t, "C09.trigger:%s:after" % name))("C09.trigger", g.loc(n), "%s reorders only after the victim has been removed from %s" % (name, cache))
+    walk_rules(ck, fb, ro)
     # adjacent_halfface_in_cell
     ad = [f for f in c.fns if f.name == "adjacent_halfface_in_cell"]
     if not ad:
